@@ -1442,6 +1442,9 @@ def rule_codec(prog):
                 f_ = {x["name"]: place(hir.strip(x["e"])) for x in rng_["fields"]}
                 if f_.get("start") in ends:
                     beyond = n_
+            elif n_.get("k") == "Index" and place(rng_) in ends:
+                # the single byte at the end of the frame is the first byte of the next one
+                beyond = n_
             elif n_.get("k") == "MethodCall" and n_["m"] in ("split_at", "split_off") and place(rng_) in ends and adv is not None and \
                     n_ is not adv[1]:
                 # (reading the tail that split_off/split_at hands back - only a violation if it is looked at; not followed here)
